@@ -23,12 +23,13 @@ func c12RetryChains(c *Ctx) {
 	}
 	faults := env.FaultSet{LostClose: true, WriteErr: true, AckLost: true, Silent: true, OnlyTypes: map[byte]bool{env.PUBLISH: true, env.PUBREL: true}}
 	c.Bound("retry-chain", fmt.Sprintf("BaseClient.Publish(QoS 1|2) then ErrorWithRetry.Retry on a fresh connected client, chain depth <= %d; faults %+v on every PUBLISH/PUBREL; caller context with a 5 s (virtual) deadline", f+1, faults))
-	for _, qos := range []mqtt.QoS{mqtt.QoS1, mqtt.QoS2} {
-		qos := qos
+	for _, qd := range []int{1, 2, 5, 6} {
+		qos := mqtt.QoS(qd & 3)
+		preDup := qd&4 != 0 // the caller's Message already has Dup=true
 		var net *env.Net
 		var flog []string
 		sc := &vrt.Scenario{
-			Name:  fmt.Sprintf("C12/chain/q%d/F%d", qos, f),
+			Name:  fmt.Sprintf("C12/chain/q%d/dupset=%v/F%d", qos, preDup, f),
 			Bound: vrt.Budget{F: f},
 			Cfg:   vrt.Config{Horizon: int64(600 * time.Second)},
 			Body: func() {
@@ -49,7 +50,7 @@ func c12RetryChains(c *Ctx) {
 				summary := func() string {
 					return fmt.Sprintf("faults %v\n wire:\n  %s", b.FaultLog, strings.Join(net.TraceStrings(), "\n  "))
 				}
-				msg := &mqtt.Message{Topic: "t/m1", QoS: qos, Payload: []byte("m1"), Retain: true}
+				msg := &mqtt.Message{Topic: "t/m1", QoS: qos, Payload: []byte("m1"), Retain: true, Dup: preDup}
 				cli := newCli()
 				ctx, cancel := vctx.WithTimeout(vctx.Background(), 5*time.Second)
 				err := cli.Publish(ctx, msg)
